@@ -794,13 +794,79 @@ def r10_last_answer_keyed_by_all_arguments(repo=None):
     return r
 
 
+COPIERS = ("np.array", "numpy.array", "np.copy", "numpy.copy", "np.ascontiguousarray", "np.concatenate", "numpy.concatenate")
+
+
+def r11_cache_hands_out_no_views(repo=None, rid="C08.R11"):
+    """'read returns the samples that were written', also the second time: the per-directory reader keeps the last file open between
+    queries.  What it keeps must be the *data set object* (every slice of an h5py data set is a fresh array read from the file),
+    or, if it keeps the samples themselves, every slice handed on must be copied.  A slice of a cached ndarray is a view: the
+    arrays read / read_vector return are then windows into the cache, and a caller that changes them in place (detrending,
+    scaling) changes what the next read of overlapping samples returns.  Which-API-hands-out-shared-storage rule on `_read`."""
+    r = Rule(rid, "the open-file cache of _read keeps the data set object (or copies what it hands out): no view of cached samples reaches the caller")
+    m = pyfront.mod("digital_rf_hdf5", repo)
+    q = TL + "._read"
+    fv = m.flat(q)
+    f = fv.fn()
+
+    def self_attr(x):
+        return x.attr if isinstance(x, ast.Attribute) and isinstance(x.value, ast.Name) and x.value.id == "self" else None
+    # attributes of self sliced to produce the data: `<x> = self.A[lo:hi]`
+    sliced = {}
+    for n in ast.walk(f):
+        if isinstance(n, ast.Subscript) and isinstance(n.ctx, ast.Load) and self_attr(n.value) and isinstance(n.slice, (ast.Slice, ast.Tuple)):
+            sliced.setdefault(self_attr(n.value), []).append(n)
+    defs = {}
+    for n in ast.walk(f):
+        if isinstance(n, ast.Assign) and len(n.targets) == 1 and self_attr(n.targets[0]) in sliced:
+            defs.setdefault(self_attr(n.targets[0]), []).append(n)
+    data_attrs = [a for a in sliced if a in defs and any(isinstance(d.value, ast.Subscript) or isinstance(d.value, ast.Call) for d in defs[a])]
+    # the sample data set: the attribute whose definition subscripts the file with the constant "rf_data"
+    cands = [a for a in data_attrs if any(isinstance(y, ast.Constant) and y.value == "rf_data" for d in defs[a] for y in ast.walk(d.value))]
+    if len(cands) != 1:
+        raise AnalysisError("%s: the attribute holding the samples of the open file (defined from <file>[\"rf_data\"]) was not found exactly once (%s)" % (q, sorted(cands)))
+    a = cands[0]
+    par = fv.parents
+    for d in defs[a]:
+        v = d.value
+        site = "%s:%s %s `%s`" % (m.rel, d.lineno, q, norm(ast.unparse(d))[:70])
+        handle = isinstance(v, ast.Subscript) and isinstance(v.slice, ast.Constant) and isinstance(v.slice.value, str)
+        if handle:
+            r.ok(site, "the cache keeps the data set object: each slice of it is read from the file into a fresh array")
+            continue
+        materialised = (isinstance(v, ast.Subscript) and isinstance(v.value, ast.Subscript)) or (
+            isinstance(v, ast.Call) and (pyfront.call_name(v) or "").split(".")[-1] in ("asarray", "array", "asanyarray", "ascontiguousarray")) or (
+            isinstance(v, ast.Attribute) and v.attr == "value")
+        if not materialised:
+            raise AnalysisError("%s: what `self.%s = %s` keeps (data set object or samples) was not recognised" % (q, a, norm(ast.unparse(v))[:60]))
+        # the samples themselves are kept: every slice handed on must be copied
+        uncopied = []
+        for sl in sliced[a]:
+            p_ = par.get(sl)
+            copied = (isinstance(p_, ast.Call) and (pyfront.call_name(p_) in COPIERS)) or (
+                isinstance(p_, ast.Attribute) and p_.attr in ("copy", "astype") and isinstance(par.get(p_), ast.Call))
+            if not copied:
+                uncopied.append(sl)
+        if uncopied:
+            r.violation(m.rel, q, norm(ast.unparse(d))[:80], "the cache keeps the samples of the open file as an array and `%s` (line %d) hands a "
+                        "view of it on: the arrays returned by read / read_vector share memory with the cache, so a caller that changes "
+                        "them in place changes what the next read of overlapping samples returns (read no longer returns what was "
+                        "written)" % (norm(ast.unparse(uncopied[0]))[:50], uncopied[0].lineno), line=d.lineno)
+        else:
+            r.ok(site, "samples kept as an array, every slice handed on is copied")
+    r.guard(1)
+    return r
+
+
 def rules(repo=None):
-    return [lambda: r10_last_answer_keyed_by_all_arguments(repo), lambda: r9_directory_names_are_not_patterns(repo), lambda: r8_no_history_state(repo), lambda: r1_one_pipeline(repo), lambda: r2_vector_guards(repo), lambda: r3_guard_on_sample_axis(repo),
+    return [lambda: r11_cache_hands_out_no_views(repo), lambda: r10_last_answer_keyed_by_all_arguments(repo), lambda: r9_directory_names_are_not_patterns(repo), lambda: r8_no_history_state(repo), lambda: r1_one_pipeline(repo), lambda: r2_vector_guards(repo), lambda: r3_guard_on_sample_axis(repo),
             lambda: c01.r3_exact_lookup(repo, rid="C08.R4"), lambda: r5_subchannel_column(repo),
             lambda: r6_lossless_conversion(repo), lambda: c01.r6_exact_index_use(repo, rid="C08.R7")]
 
 
 EXPLANATION = (
+    'R11: the attribute of the per-directory reader from which _read slices the samples is bound to the data set object '
+    '(<file>["rf_data"]), so every slice is a fresh array; if it is bound to materialised samples every slice handed on must be copied. '
     'R1: read() and get_continuous_blocks() call _get_file_list, _read and _combine_blocks with identical arguments '
     'except len_only; the two branches of _read use the same slice bounds and key; _combine_blocks specialised for '
     'len_only=True is the image of its specialisation for len_only=False under array -> len(array) (concatenate -> +, '
